@@ -2,6 +2,7 @@ package tm
 
 import (
 	"fmt"
+	"regexp"
 	"sort"
 
 	"github.com/cockroachdb/errors"
@@ -110,6 +111,8 @@ func PIIFreeOutputs(e error) []Out {
 	return out
 }
 
+var tokenRe = regexp.MustCompile(`Q7k\d\dZ`)
+
 // SlotInfo describes one string slot of a term.
 type SlotInfo struct {
 	K      int
@@ -132,7 +135,12 @@ func (t *Term) SlotInfos() []SlotInfo {
 			return
 		}
 		for i, sl := range t.Op.Slots {
-			out = append(out, SlotInfo{K: k, Op: t.Op.Name, Name: sl.Name, Safe: sl.Safe, NoRep: sl.NoReport || notRetained, Value: t.S[i], Token: Token(k), Hidden: hidden})
+			tok := Token(k)
+			if m := tokenRe.FindString(t.S[i]); m != "" {
+				// the slot may carry another position's token (aliased strings)
+				tok = m
+			}
+			out = append(out, SlotInfo{K: k, Op: t.Op.Name, Name: sl.Name, Safe: sl.Safe, NoRep: sl.NoReport || notRetained, Value: t.S[i], Token: tok, Hidden: hidden})
 			k++
 		}
 		rec(t.Kid, hidden || t.Op.HidesCause, notRetained)
